@@ -32,8 +32,9 @@ type half struct {
 	rclosed  bool  // reader side closed: writes fail, pending reads fail with net.ErrClosed
 	coalesce bool
 
-	deadlineSet bool // a non-zero read deadline is currently armed
-	fired       bool // the armed deadline has been fired by the harness
+	deadlineSet bool      // a non-zero read deadline is currently armed
+	deadlineAt  time.Time // its value (never acted upon: only for inspection)
+	fired       bool      // the armed deadline has been fired by the harness
 
 	expired  bool  // the wall-clock watchdog of a blocked Read fired
 	parked   int   // readers currently blocked on an empty queue
@@ -347,6 +348,7 @@ func (c *Conn) SetReadDeadline(t time.Time) error {
 	}
 	c.rd.mu.Lock()
 	c.rd.deadlineSet = !t.IsZero()
+	c.rd.deadlineAt = t
 	c.rd.fired = false
 	c.rd.gen++
 	c.rd.cond.Broadcast()
@@ -363,6 +365,15 @@ func (c *Conn) SetWriteDeadline(t time.Time) error {
 	c.wDeadlineSet = !t.IsZero()
 	c.wFired = false
 	return nil
+}
+
+// ReadDeadlineValue returns the read deadline currently armed on this end (ok == false: none).
+// Deadlines never expire by themselves here; the value lets a monitor see WHICH timeout the
+// code under test has armed.
+func (c *Conn) ReadDeadlineValue() (t time.Time, ok bool) {
+	c.rd.mu.Lock()
+	defer c.rd.mu.Unlock()
+	return c.rd.deadlineAt, c.rd.deadlineSet
 }
 
 // FireWriteDeadline expires the currently armed write deadline of this end, if any: every
